@@ -252,7 +252,7 @@ theorem GoodCur.dropLast {root : Node} {cur : List Name} (h : GoodCur root cur) 
         simp only [hi, Option.bind_some] at h
         obtain ⟨es', _, hx, _, _⟩ := Node.getAt_cons_some h
         subst hx
-        exact .inr ⟨es', rfl⟩
+        exact .inr ⟨es', hi⟩
 
 /-- the object a fully followed walk ends at is never a symbolic link -/
 theorem walkPath_follow_nonlink (root : Node) (hroot : root.isLink = false) :
@@ -284,8 +284,7 @@ theorem walkPath_follow_nonlink (root : Node) (hroot : root.isLink = false) :
         · exact hg
       · rename_i es hnode
         exact ih _ r c (.inr ⟨es, hnode⟩) h
-      · rename_i x hnode hnl hnd
-        trace_state
+      · rename_i x hnl hnd hnode
         split at h
         · simp only [Res.found.injEq] at h
           subst h
@@ -391,5 +390,298 @@ theorem lstat_canonical_nonlink (fs : Fs) (hroot : fs.root.isLink = false)
     · cases hl
   · cases h
   · cases h
+
+/-! ## Counting symbolic links; mutations that create none -/
+
+mutual
+/-- number of symbolic links in a tree -/
+def linkCount : Node → Nat
+  | .link _ => 1
+  | .dir es => linkCountL es
+  | _ => 0
+def linkCountL : List (Name × Node) → Nat
+  | [] => 0
+  | (_, n) :: r => linkCount n + linkCountL r
+end
+
+theorem linkCountL_entSet_le (es : Entries) (n : Name) (x : Node) :
+    linkCountL (entSet es n x) ≤ linkCountL es + linkCount x := by
+  induction es with
+  | nil => simp [entSet, linkCountL]
+  | cons e r ih =>
+    obtain ⟨k, w⟩ := e
+    simp only [entSet]
+    split
+    · simp only [linkCountL]; omega
+    · simp only [linkCountL]; omega
+
+theorem linkCountL_entSet_get (es : Entries) (n : Name) (x c : Node) (h : entGet es n = some c) :
+    linkCountL (entSet es n x) + linkCount c = linkCountL es + linkCount x := by
+  induction es with
+  | nil => simp [entGet] at h
+  | cons e r ih =>
+    obtain ⟨k, w⟩ := e
+    simp only [entGet] at h
+    simp only [entSet]
+    split
+    · rename_i hk
+      simp only [hk, if_true, Option.some.injEq] at h
+      subst h
+      simp only [linkCountL]; omega
+    · rename_i hk
+      simp only [hk, if_false] at h
+      have := ih h
+      simp only [linkCountL]; omega
+
+theorem linkCountL_entDel_le (es : Entries) (n : Name) : linkCountL (entDel es n) ≤ linkCountL es := by
+  induction es with
+  | nil => simp [entDel]
+  | cons e r ih =>
+    obtain ⟨k, w⟩ := e
+    simp only [entDel]
+    split
+    · simp only [linkCountL]; omega
+    · simp only [linkCountL]; omega
+
+theorem linkCount_setAt_le (p : List Name) : ∀ (root v : Node),
+    linkCount (root.setAt p v) ≤ linkCount root + linkCount v := by
+  induction p with
+  | nil => intro root v; simp [Node.setAt]
+  | cons n r ih =>
+    intro root v
+    cases root with
+    | dir es =>
+      cases r with
+      | nil => simp only [Node.setAt, linkCount]; exact linkCountL_entSet_le es n v
+      | cons m r' =>
+        simp only [Node.setAt]
+        cases hc : entGet es n with
+        | none => simp only [linkCount]; omega
+        | some c =>
+          simp only [linkCount]
+          have h1 := linkCountL_entSet_get es n (c.setAt (m :: r') v) c hc
+          have h2 := ih c v
+          omega
+    | file _ => simp [Node.setAt]
+    | link _ => simp [Node.setAt]
+    | special _ _ => simp [Node.setAt]
+
+theorem linkCount_delAt_le (p : List Name) : ∀ (root : Node), linkCount (root.delAt p) ≤ linkCount root := by
+  induction p with
+  | nil => intro root; simp [Node.delAt]
+  | cons n r ih =>
+    intro root
+    cases root with
+    | dir es =>
+      cases r with
+      | nil => simp only [Node.delAt, linkCount]; exact linkCountL_entDel_le es n
+      | cons m r' =>
+        simp only [Node.delAt]
+        cases hc : entGet es n with
+        | none => simp only [linkCount]; omega
+        | some c =>
+          simp only [linkCount]
+          have h1 := linkCountL_entSet_get es n (c.delAt (m :: r')) c hc
+          have h2 := ih c
+          omega
+    | file _ => simp [Node.delAt]
+    | link _ => simp [Node.delAt]
+    | special _ _ => simp [Node.delAt]
+
+theorem createFile_links {fs fs' : Fs} {p : RPath} {c : Nat} (h : fs.createFile p c = .ok fs') :
+    linkCount fs'.root ≤ linkCount fs.root := by
+  unfold Fs.createFile at h
+  split at h
+  · split at h
+    · cases h; exact linkCount_setAt_le _ _ _
+    · cases h
+    · cases h; exact Nat.le_refl _
+    · cases h
+  · split at h
+    · cases h
+    · cases h; exact linkCount_setAt_le _ _ _
+  · cases h
+
+theorem mkdir_links {fs fs' : Fs} {p : RPath} (h : fs.mkdir p = .ok fs') :
+    linkCount fs'.root ≤ linkCount fs.root := by
+  unfold Fs.mkdir at h
+  split at h
+  · cases h
+  · cases h; exact linkCount_setAt_le _ _ _
+  · cases h
+
+theorem mknod_links {fs fs' : Fs} {p : RPath} {k : FileKind} {rdev : Nat} (h : fs.mknod p k rdev = .ok fs') :
+    linkCount fs'.root ≤ linkCount fs.root := by
+  unfold Fs.mknod at h
+  split at h
+  · cases h
+  · cases h; exact linkCount_setAt_le _ _ _
+  · cases h
+
+theorem unlink_links {fs fs' : Fs} {p : RPath} (h : fs.unlink p = .ok fs') :
+    linkCount fs'.root ≤ linkCount fs.root := by
+  unfold Fs.unlink at h
+  split at h
+  · split at h
+    · cases h
+    · split at h
+      · cases h
+      · cases h; exact linkCount_delAt_le _ _
+    · cases h
+  · cases h
+  · cases h
+
+theorem mkdirAllAux_links (abs : Bool) : ∀ (rev : List Comp) (fs fs' : Fs), Fs.mkdirAllAux fs abs rev = .ok fs' →
+    linkCount fs'.root ≤ linkCount fs.root := by
+  intro rev
+  induction rev with
+  | nil => intro fs fs' h; simp only [Fs.mkdirAllAux] at h; cases h; exact Nat.le_refl _
+  | cons c rest ih =>
+    intro fs fs' h
+    simp only [Fs.mkdirAllAux] at h
+    split at h
+    · rename_i fs1 h1
+      cases h; exact mkdir_links h1
+    · split at h
+      · rename_i fs1 h1
+        have le1 := ih fs fs1 h1
+        split at h
+        · rename_i fs2 h2
+          cases h
+          exact Nat.le_trans (mkdir_links h2) le1
+        · split at h
+          · cases h; exact le1
+          · cases h
+      · cases h
+    · split at h
+      · cases h; exact Nat.le_refl _
+      · cases h
+
+theorem mkdirAll_links {fs fs' : Fs} {p : RPath} (h : fs.mkdirAll p = .ok fs') :
+    linkCount fs'.root ≤ linkCount fs.root := by
+  unfold Fs.mkdirAll at h
+  split at h
+  · cases h; exact Nat.le_refl _
+  · exact mkdirAllAux_links _ _ _ _ h
+
+theorem toOption_eq_some {ε α} {x : Except ε α} {a : α} (h : x.toOption = some a) : x = .ok a := by
+  cases x with
+  | error e => simp [Except.toOption] at h
+  | ok b => simp [Except.toOption] at h; rw [h]
+
+/-- an operation other than `link` never adds a symbolic link -/
+theorem execOp_links {fs fs' : Fs} {c : Cfg} {op : Op} (hop : ∀ t tg, op ≠ .link t tg)
+    (h : execOp fs c op = some fs') : linkCount fs'.root ≤ linkCount fs.root := by
+  cases op with
+  | fail => simp [execOp] at h
+  | mkdir t => exact mkdirAll_links (toOption_eq_some h)
+  | copy s t =>
+    simp only [execOp] at h
+    split at h
+    · cases h
+    · split at h
+      · cases h
+      · exact createFile_links (toOption_eq_some h)
+  | link t tg => exact absurd rfl (hop t tg)
+  | special s t =>
+    simp only [execOp] at h
+    split at h
+    · split at h
+      · split at h
+        · cases h
+        · split at h
+          · cases h
+          · split at h
+            · rename_i fs1 h1
+              exact Nat.le_trans (mknod_links (toOption_eq_some h)) (unlink_links h1)
+            · cases h
+      · exact mknod_links (toOption_eq_some h)
+    · cases h
+
+theorem execOps_links (c : Cfg) : ∀ (ops : List Op) (fs : Fs), (∀ op ∈ ops, ∀ t tg, op ≠ .link t tg) →
+    linkCount (execOps fs c ops).fs.root ≤ linkCount fs.root := by
+  intro ops
+  induction ops with
+  | nil => intro fs _; exact Nat.le_refl _
+  | cons op r ih =>
+    intro fs h
+    simp only [execOps]
+    split
+    · rename_i fs' h1
+      exact Nat.le_trans (ih fs' (fun o ho => h o (List.mem_cons_of_mem _ ho)))
+        (execOp_links (h op List.mem_cons_self) h1)
+    · exact Nat.le_refl _
+
+/-! ## The walk with `--dereference` -/
+
+theorem mem_ite' {α} {c : Prop} [Decidable c] {a b : List α} {x : α} (h : x ∈ (if c then a else b)) :
+    x ∈ a ∨ x ∈ b := by
+  split at h
+  · exact .inl h
+  · exact .inr h
+
+/-- the operation `walkEntry` emits for the entry itself -/
+def hereOps (node : Node) (fromP target : RPath) : List Op :=
+  match classifyKind node.kind with
+  | .copy => [.copy fromP target]
+  | .link => (match node with | .link t => [.link t target] | _ => [.fail])
+  | .mkdir => [.mkdir target]
+  | .special => [.special fromP target]
+  | .unsupported => [.fail]
+
+theorem hereOps_no_link (node : Node) (fromP target : RPath) (hnl : node.isLink = false) :
+    ∀ op ∈ hereOps node fromP target, ∀ t tg, op ≠ .link t tg := by
+  intro op h t tg
+  unfold hereOps at h
+  cases node with
+  | link _ => cases hnl
+  | file _ => simp [Node.kind, classifyKind] at h; subst h; exact Op.noConfusion
+  | dir _ => simp [Node.kind, classifyKind] at h; subst h; exact Op.noConfusion
+  | special k _ =>
+    cases k <;> simp [Node.kind, classifyKind] at h <;> subst h <;> exact Op.noConfusion
+
+theorem walkEntry_deref_no_link (fs : Fs) (hroot : fs.root.isLink = false)
+    (hcwd : fs.cwd = [] ∨ ∃ es, fs.root.getAt fs.cwd = some (.dir es))
+    (c : Cfg) (hd : c.dereference = true) (gi : Ignore) (src tb : RPath) :
+    ∀ (fuel : Nat) (rel : List Name) (anc : List (List Name)),
+      ∀ op ∈ walkEntry fs c gi src tb fuel rel anc, ∀ t tg, op ≠ .link t tg := by
+  intro fuel
+  induction fuel with
+  | zero => intro rel anc op h t tg; simp [walkEntry] at h; subst h; exact Op.noConfusion
+  | succ f ih =>
+    intro rel anc op h t tg
+    simp only [walkEntry, hd] at h
+    cases hls : fs.lstat (relJoin src rel) with
+    | none => simp only [hls, List.mem_singleton] at h; subst h; exact Op.noConfusion
+    | some pr =>
+      obtain ⟨cp, lnode⟩ := pr
+      simp only [hls] at h
+      have h' := mem_ite' h; clear h; rcases h' with h | h
+      · simp only [List.mem_singleton] at h; subst h; exact Op.noConfusion
+      have h' := mem_ite' h; clear h; rcases h' with h | h
+      · cases h
+      simp only [if_true] at h
+      cases hcan : fs.canonicalize (relJoin src rel) with
+      | error e => simp only [hcan, List.mem_singleton] at h; subst h; exact Op.noConfusion
+      | ok fromP =>
+        simp only [hcan] at h
+        cases hl2 : fs.lstat fromP with
+        | none => simp only [hl2, List.mem_singleton] at h; subst h; exact Op.noConfusion
+        | some pr2 =>
+          obtain ⟨canon, node⟩ := pr2
+          simp only [hl2] at h
+          have hnl := lstat_canonical_nonlink fs hroot hcwd _ _ hcan canon node hl2
+          have h' := mem_ite' h; clear h; rcases h' with h | h
+          · simp only [List.mem_singleton] at h; subst h; exact Op.noConfusion
+          split at h
+          · exact hereOps_no_link node fromP _ hnl op h t tg
+          · have h' := mem_ite' h; clear h; rcases h' with h | h
+            · simp only [List.mem_singleton] at h; subst h; exact Op.noConfusion
+            split at h
+            · rcases List.mem_append.mp h with h | h
+              · exact hereOps_no_link node fromP _ hnl op h t tg
+              · obtain ⟨n, _, hn⟩ := List.mem_flatMap.mp h
+                exact ih _ _ _ hn t tg
+            · exact hereOps_no_link node fromP _ hnl op h t tg
 
 end Xcp
